@@ -52,7 +52,7 @@ SETS["allocator"] = {
     "harnesses": ["two_allocations_never_alias", "pending_free_never_frees_counted"],
     "edition": "2024",
     "bounded": True,
-    "bound": "heaps of at most 3 slots (every wf combination of counts <= 2 / freed flags / free list), at most 3 queued frees with duplicates, two consecutive allocations",
+    "bound": "heaps of at most 2 slots (every wf combination of counts <= 2 / freed flags / free list), at most 2 queued frees with duplicates, two consecutive allocations",
     "quick": False,
 }
 
